@@ -244,7 +244,8 @@ def edit(rng, t, next_id):
     t = [list(e) for e in t]
     d = tdict(t)
     nonroot = [e for e in t if e[1] is not None]
-    op = rng.choice(["rename", "move", "move", "swap", "modify", "kind", "delete", "add", "add", "replace", "dir2file"])
+    op = rng.choice(["rename", "move", "move", "swap", "modify", "kind", "delete", "add", "add", "replace", "dir2file",
+                     "replacedir"])
     if op in ("add",) or not nonroot:
         dirs = [e[0] for e in t if e[3] == D]
         par = rng.choice(dirs)
@@ -292,6 +293,30 @@ def edit(rng, t, next_id):
         t = [x for x in t if x[0] not in sub]
         t.append(_new_entry(rng, next_id, e[1], e[2]))
         next_id += 1
+    elif op == "replacedir":
+        # a directory gives way (deleted, or renamed/retyped) to a NEW directory id at its path; an outsider moves in
+        dirs = [x for x in nonroot if x[3] == D]
+        if dirs:
+            e = rng.choice(dirs)
+            slot = (e[1], e[2])
+            sub = _subtree(t, e[0])
+            outsiders = [x for x in nonroot if x[0] not in sub]
+            if rng.random() < 0.5:
+                t = [x for x in t if x[0] not in sub]
+            else:
+                name = _free_name(rng, t, e[1])
+                if name:
+                    e[2] = name
+                    kids = [x for x in t if x[1] == e[0]]
+                    if not kids and rng.random() < 0.5:
+                        e[:] = norm_entry([e[0], e[1], e[2], FI, rng.choice(CONTENTS), False, ""])
+            if not any((x[1], x[2]) == slot for x in t):
+                t.append(norm_entry([next_id, slot[0], slot[1], D, b"", False, ""]))
+                if outsiders:
+                    o = rng.choice(outsiders)
+                    if o[0] in {x[0] for x in t}:
+                        o[1] = next_id
+                next_id += 1
     elif op == "dir2file":
         if e[3] == D:
             kids = [x for x in t if x[1] == e[0]]
@@ -380,11 +405,25 @@ def corpus():
     b = [R, e(1, 0, "d", FI, b"2"), e(2, 0, "x"), e(3, 0, "y", D), e(4, 3, "z")]
     for F in (None, ["d"], ["x"], ["y/z"], ["y"]):
         out.append(mk(a, b, F=F))
+    # W4: a directory is replaced by a new directory id at the same path and a selected file moves in:
+    # _handle_precise_ids must drag in the old directory and (it stopped being a directory) its old children
+    a = [R, e(1, 0, "d", D), e(2, 1, "x"), e(3, 0, "f")]
+    b4 = [R, e(3, 4, "f"), e(4, 0, "d", D)]
+    b5 = [R, e(1, 0, "g", FI, b"2"), e(2, 0, "x"), e(3, 4, "f"), e(4, 0, "d", D)]
+    b6 = [R, e(1, 0, "g", FI, b"2"), e(2, 5, "x"), e(3, 4, "f"), e(4, 0, "d", D), e(5, 4, "n", D)]
+    for bb in (b4, b5, b6):
+        for F in (["f"], ["d/f"], ["d"], None, ["x"]):
+            out.append(mk(a, bb, F=F))
+            out.append(mk(a, bb, F=F, incl=True))
+    # the dirstate fast path reports id 5 twice
+    a = [R, e(1, 0, "d", FI, b""), e(2, 0, "c", D), e(3, 2, "a", FI, b""), e(4, 2, "d", D), e(5, 0, "e", D)]
+    b = [R, e(1, 0, "d", FI, b""), e(2, 0, "c", D), e(5, 2, "c", D), e(6, 2, "a", FI, b"2")]
+    out.append(mk(a, b, ["u"], ["c", "c/a", "e", "u"], True, False, False))
     return out
 
 
 def cases(rng, tier):
-    npairs = 45 if tier == "quick" else 1300
+    npairs = 110 if tier == "quick" else 1500
     for pi in range(npairs):
         n = rng.choice([2, 3, 4, 5, 6, 7]) if pi % 4 else rng.choice([2, 3])
         k = rng.choice([1, 2, 3, 4, 5])
@@ -678,7 +717,7 @@ def _finding_of(tag, inp):
     filt = inp["F"] is not None
     if tag in ("dup:generic_rt", "dup:chk", "dup:generic_wt") and filt:
         return "C10-precise-ids-duplicate"
-    if tag.startswith("invalid:") and tag.endswith(":dup-name") and filt and tag.split(":")[1] in ("generic_rt", "chk", "generic_wt"):
+    if tag.startswith("invalid:") and tag.endswith(":dup-name") and filt and tag.split(":")[1] in ("generic_rt", "chk", "generic_wt", "generic_wtb", "dirstate"):
         return "C10-filtered-path-collision"
     if tag == "differs:dirstate/generic_wt" and filt:
         return "C10-dirstate-filter-closure-differs"
@@ -696,8 +735,10 @@ def _finding_of(tag, inp):
 
 
 def _dir_to_nondir(inp):
-    db = tdict(inp["b"])
-    return any(x[3] == D and x[0] in db and db[x[0]][3] != D for x in inp["a"])
+    """some path is a directory in the source and a non-directory in the target (any ids)"""
+    pa, pb = tpaths(inp["a"]), tpaths(inp["b"])
+    kb = {pb[x[0]]: x[3] for x in inp["b"]}
+    return any(x[3] == D and kb.get(pa[x[0]], D) != D for x in inp["a"])
 
 
 def oracle(inp, obs):
